@@ -1391,6 +1391,15 @@ class DiskRefsContainer(RefsContainer):
             realname = name
         self._check_refname(realname)
         filename = self.refpath(realname)
+
+        # make sure none of the ancestor folders is in packed refs
+        probe_ref = Ref(os.path.dirname(realname))
+        packed_refs = self.get_packed_refs()
+        while probe_ref:
+            if packed_refs.get(probe_ref, None) is not None:
+                raise NotADirectoryError(filename)
+            probe_ref = Ref(os.path.dirname(probe_ref))
+
         ensure_dir_exists(os.path.dirname(filename))
         with GitFile(filename, "wb") as f:
             if os.path.exists(filename) or name in self.get_packed_refs():
